@@ -581,6 +581,17 @@ func (r *atRun) checkPhaseOne(o *episodeObs) {
 		if len(aw) == 0 && t.undoIns == nil {
 			continue
 		}
+		// phase-two transactions of the resource manager (undo / async delete)
+		// read or delete undo_log rows: they are not business local transactions
+		phaseTwo := false
+		for _, e := range t.entries {
+			if e.Class == "select-for-update-undo" || e.Class == "delete-undo" || e.Class == "select-undo" {
+				phaseTwo = true
+			}
+		}
+		if phaseTwo {
+			continue
+		}
 		if o.xid == "" {
 			continue
 		}
@@ -669,6 +680,15 @@ func (r *atRun) checkPhaseOne(o *episodeObs) {
 		}
 		r.checkImages(o, t, fl)
 		r.checkEncoding(o, t, fl)
+	}
+	// C08: every configured compress type must be able to store a branch undo log
+	if len(o.ep.DBFaults) == 0 && len(o.ep.TCRules) == 0 {
+		for _, sr := range o.stmts {
+			if sr.Err != nil && strings.Contains(sr.Err.Error(), "is not compressible") {
+				r.violate("C08", "writable", "compressor-refuses-small-log-"+strings.ToLower(r.plan.Cfg.Compress), "episode %d: with compress type %s the branch undo log could not be written at all: %v", o.idx, r.plan.Cfg.Compress, firstLineOf(sr.Err.Error()))
+				break
+			}
+		}
 	}
 	// C02(d): the pool never holds a connection inside a transaction
 	for _, e := range j {
@@ -1107,4 +1127,14 @@ func init() {
 	engines["C01"] = runC01
 	engines["C08"] = runC08
 	engines["C18"] = runC18
+}
+
+func firstLineOf(s string) string {
+	if i := strings.IndexByte(s, '\n'); i >= 0 {
+		s = s[:i]
+	}
+	if len(s) > 200 {
+		s = s[:200] + "..."
+	}
+	return s
 }
